@@ -595,6 +595,10 @@ package rosmar
 //@   ensures [C10:OpenBucket.schema-once]      count("call:registerBucket") == 1 ==> (scanned(0) == 0 <==> count("call:Bucket.initializeSchema") == 1)
 //@   ensures [C10,C14:OpenBucket.rearms-expiry] err == nil && count("call:registerBucket") == 1 ==> (scanned(0) != 0 <==> count("call:Bucket._scheduleExpiration") == 1)
 //@   ensures [C10,C13:OpenBucket.deletes-only-what-it-created] count("call:Bucket.CloseAndDelete") >= 1 ==> count("call:Bucket.initializeSchema") == 1
+//@   ensures [C13:OpenBucket.create-new-refuses-an-existing-directory] mode == 1 && count("ext:Stat") == 1 && extret("Stat", 1) == nil ==> err != nil && count("call:registerBucket") == 0 && count("sql") == 0
+//@   ensures [C13:OpenBucket.reopen-never-creates] count("call:registerBucket") == 1 && connopt("mode", "") != "" ==> (if mode == 2 then connopt("mode", "") == "rw" && count("ext:Mkdir") == 0 else connopt("mode", "") == "rwc")
+//@   ensures [C13:OpenBucket.in-memory-reopen-needs-the-registry] count("call:getCachedBucket") == 1 && callret("getCachedBucket", 0) == nil && callret("getCachedBucket", 1) == nil && mode == 2 && count("ext:Get") >= 1 && extret("Get", 0) == "memory" ==> err != nil && count("call:registerBucket") == 0
+//@   ensures [C01,C03,C13:OpenBucket.in-memory-store-has-one-connection] count("call:registerBucket") == 1 && count("ext:Get") >= 1 && extret("Get", 0) == "memory" ==> count("ext:SetMaxOpenConns") == 1 && extarg("SetMaxOpenConns", 1) == 1
 //@   ensures [C20:OpenBucket.unlocked]         any: nolocks()
 // The facts of schema.sql and of the SQLite connection string that the SQL semantics and the isolation / atomicity
 // arguments rest on (they are assumptions of every other proof; here they are checked against the tree):
